@@ -22,4 +22,17 @@ for seed in (1, 2):
 for seed in (1, 2, 3, 4):
     HARNESSES.append(dict(COMMON, name="seed_wf_s%d" % seed, entry="h_seed_wf", defines={"SEED": seed}, encoded=["hwloc_discover", "hwloc__insert_object_by_cpuset", "hwloc_insert_object_by_parent", "propagate_nodeset", "fixup_sets", "remove_unused_sets", "hwloc__reconnect", "hwloc_connect_children", "hwloc_connect_levels", "hwloc_connect_special_levels", "hwloc_filter_levels_keep_structure", "propagate_total_memory", "hwloc_propagate_symmetric_subtree"],
                           tiers={"quick": {}, "thorough": {}}, bounds="seed S%d through the complete real discovery pipeline (concrete), every C01 clause re-checked by an independent checker" % seed, cost=30))
+# sibling-list surgery (used when levels are merged) is shared with C02
+import importlib.util as _iu
+_s = _iu.spec_from_file_location("spec_C02", os.path.join(os.path.dirname(__file__), "C02.py"))
+if not globals().get("_C01_LOADING"):
+    import builtins
+    if not getattr(builtins, "_vp_c01_loading", False):
+        builtins._vp_c01_loading = True
+        try:
+            _m = _iu.module_from_spec(_s); _s.loader.exec_module(_m)
+            for _h in _m.HARNESSES:
+                if _h["name"].startswith("siblings_"): _h2 = dict(_h); _h2["name"] = "C02_" + _h["name"]; HARNESSES.append(_h2)
+        finally:
+            builtins._vp_c01_loading = False
 OUTSIDE = ["hwloc_topology_load from symbolic sources (XML, synthetic strings, sysfs, cpuid): front ends are C06/C07/C18", "hwloc_connect_children/levels on symbolic shapes", "the full filter x flag product on real inputs", "level merging decisions on symbolic shapes"]
